@@ -27,9 +27,14 @@ ASSUMPTIONS = [
 ]
 
 
+# the usual dyadic durations plus a very long and a barely longer one (exactly representable): differences that are tiny
+# relative to the absolute time at which they occur
+DURATIONS = list(P.DYADIC) + [8388608.0, 1.00048828125]
+
+
 def cfg():
     return P.GenCfg(nq=4, max_items=7, max_depth=2, p_sub=35, p_rel=35, max_reps=4, top_reps=True, reg_reps=True,
-                    globals_=True, global_zero=True, max_total_leaves=70, min_sub_items=0)
+                    globals_=True, global_zero=True, max_total_leaves=70, min_sub_items=0, durations=DURATIONS)
 
 
 def strat():
